@@ -2,7 +2,7 @@
 (* Exactly invertible fixed-point entropy models (src/stream/model/ directory).  *)
 (* A model is a table: a sequence of <<symbol, cum, prob>> over the naturals *)
 (* (values are compared with the B-bit implementation values modulo 2^B).    *)
-EXTENDS Bits, FiniteSets
+EXTENDS Bits, FiniteSets, Integers
 
 RECURSIVE SumSeq(_)
 SumSeq(s) == IF s = <<>> THEN 0 ELSE s[1] + SumSeq(Tail(s))
@@ -67,4 +67,24 @@ AcceptLeaky(n, P) == n >= 2 /\ n <= Pow2(P)
 LeakyLeft(K, m, n, P, i) == IF i = 0 THEN 0 ELSE ((Pow2(P) - n) * K[i]) \div Pow2(m) + i
 LeakyTable(K, m, n, min, P) == [i \in 1..n |->
     <<min + i - 1, LeakyLeft(K, m, n, P, i - 1), (IF i = n THEN Pow2(P) ELSE LeakyLeft(K, m, n, P, i)) - LeakyLeft(K, m, n, P, i - 1)>>]
+
+(***************************************************************************)
+(* Model diagnostics (C18) on DYADIC models, where every quantity is an      *)
+(* exact rational: probs[i] = 2^k[i] out of 2^P; reference distribution      *)
+(* r[i] = q[i] / 4 with q[i] \in {0, 1, 2, 4} (so log2 r[i] = Log2q(q[i]) - 2). *)
+(* All results are numerators over the stated denominators.                  *)
+(***************************************************************************)
+Log2q(q) == IF q = 1 THEN 0 ELSE IF q = 2 THEN 1 ELSE 2                     \* q \in {1, 2, 4}
+SumOver(n, F(_)) == SumSeq([i \in 1..n |-> F(i)])
+\* entropy = P - sum_i p_i k_i / 2^P                      (denominator 2^P)
+EntropyNum(k, P) == LET F(i) == Pow2(k[i]) * (P - k[i]) IN SumOver(Len(k), F)
+\* cross entropy  H(r, model) = sum_i r_i (P - k_i)       (denominator 4)
+CrossNum(k, q, P) == LET F(i) == q[i] * (P - k[i]) IN SumOver(Len(k), F)
+\* reverse cross entropy H(model, r) = sum_i p_i (2 - log2 q_i) / 2^P   (denominator 2^P; needs q_i > 0)
+RevCrossNum(k, q, P) == LET F(i) == Pow2(k[i]) * (2 - Log2q(q[i])) IN SumOver(Len(k), F)
+\* KL(r || model) = cross entropy - H(r);  H(r) = sum_i r_i (2 - log2 q_i)   (denominator 4)
+RefEntropyNum(q) == LET F(i) == IF q[i] = 0 THEN 0 ELSE q[i] * (2 - Log2q(q[i])) IN SumOver(Len(q), F)
+KlNum(k, q, P) == CrossNum(k, q, P) - RefEntropyNum(q)
+\* KL(model || r) = reverse cross entropy - entropy        (denominator 2^P)
+RevKlNum(k, q, P) == RevCrossNum(k, q, P) - EntropyNum(k, P)
 =============================================================================
